@@ -685,3 +685,628 @@ func dedupStr(in []string) []string {
 	}
 	return out
 }
+
+// ---------------------------------------------------------------------------------------------------
+// G41 the wrapper around an installed handler is transparent; G42 deletion by index inside an ascending loop
+
+func init() {
+	register("G41", "the function that a plugin manager builds around each installed handler (the literal returned by the getNextHandler argument of newPluginManager, in NewInvokeManager and NewIOManager) is transparent: its first statement calls the handler, unconditionally, with the wrapper's own parameters in order followed by the next handler, and what the handler returns is returned unchanged - a wrapper that answers by itself on some condition (an ended context, a nil request) makes the framework skip that handler and everything behind it, so a call passes through only a prefix of the installed handlers", 2, ruleG41)
+	register("G42", "where an element is cut out of a slice in place (s = append(s[:i], s[i+1:]...)) inside a loop that counts i upwards, the loop is left (return, break of that loop) or i is stepped back before the next iteration: otherwise the element that has moved into position i is never looked at (two adjacent handlers passed to one Unuse: the second stays installed)", 1, ruleG42)
+}
+
+func ruleG41(r *Run) {
+	p := r.P
+	pkg := p.Pkg("rpc/core")
+	if pkg == nil {
+		r.Undec("package rpc/core", 0, "not found")
+		return
+	}
+	info := pkg.TypesInfo
+	npm := p.LookupFunc("rpc/core", "newPluginManager")
+	if npm == nil {
+		r.Undec("rpc/core.newPluginManager", 0, "not found")
+		return
+	}
+	for _, file := range pkg.Syntax {
+		for _, d := range file.Decls {
+			fd, ok := d.(*ast.FuncDecl)
+			if !ok || fd.Body == nil {
+				continue
+			}
+			ast.Inspect(fd.Body, func(m ast.Node) bool {
+				c, ok := m.(*ast.CallExpr)
+				if !ok || Callee(info, c) != npm || len(c.Args) < 2 {
+					return true
+				}
+				builder, ok := ast.Unparen(c.Args[1]).(*ast.FuncLit)
+				if !ok {
+					// handed on from a parameter (newPluginManager itself): not a construction site
+					return true
+				}
+				key := "wrapper built in " + p.DeclName(fd)
+				bps := paramsOf(info, builder.Type)
+				if len(bps) != 2 {
+					r.Undec(key, builder.Pos(), "the builder does not take (handler, next)")
+					return true
+				}
+				defs := localDefs(info, builder.Body)
+				// from: the object is the builder's parameter i, or a local defined from it by assertion/conversion
+				from := func(e ast.Expr, want *types.Var) bool {
+					for depth := 0; depth < 4; depth++ {
+						e = ast.Unparen(e)
+						switch x := e.(type) {
+						case *ast.TypeAssertExpr:
+							e = x.X
+							continue
+						case *ast.CallExpr:
+							if tv, ok := info.Types[x.Fun]; ok && tv.IsType() && len(x.Args) == 1 {
+								e = x.Args[0]
+								continue
+							}
+							return false
+						case *ast.Ident:
+							o := info.Uses[x]
+							if o == want {
+								return true
+							}
+							if def, ok := defs[o]; ok {
+								e = def
+								continue
+							}
+						}
+						return false
+					}
+					return false
+				}
+				// the wrapper: the function literal the builder returns
+				var wrap *ast.FuncLit
+				ast.Inspect(builder.Body, func(k ast.Node) bool {
+					if ret, ok := k.(*ast.ReturnStmt); ok && len(ret.Results) == 1 && wrap == nil {
+						e := ast.Unparen(ret.Results[0])
+						if cv, ok := e.(*ast.CallExpr); ok && len(cv.Args) == 1 {
+							e = ast.Unparen(cv.Args[0])
+						}
+						if fl, ok := e.(*ast.FuncLit); ok {
+							wrap = fl
+						} else if id, ok := e.(*ast.Ident); ok {
+							if def, ok := defs[info.Uses[id]]; ok {
+								if fl, ok := ast.Unparen(def).(*ast.FuncLit); ok {
+									wrap = fl
+								}
+							}
+						}
+					}
+					return true
+				})
+				if wrap == nil || len(wrap.Body.List) == 0 {
+					r.Undec(key, builder.Pos(), "the literal the builder returns was not found")
+					return true
+				}
+				wps := paramsOf(info, wrap.Type)
+				// first statement: the call of the handler
+				var call *ast.CallExpr
+				var assigned []types.Object
+				switch s := wrap.Body.List[0].(type) {
+				case *ast.ReturnStmt:
+					if len(s.Results) == 1 {
+						call, _ = ast.Unparen(s.Results[0]).(*ast.CallExpr)
+					}
+				case *ast.AssignStmt:
+					if len(s.Rhs) == 1 {
+						call, _ = ast.Unparen(s.Rhs[0]).(*ast.CallExpr)
+						for _, l := range s.Lhs {
+							assigned = append(assigned, identObj(info, l))
+						}
+					}
+				}
+				if call == nil || !from(call.Fun, bps[0]) {
+					r.Viol(key, wrap.Body.List[0].Pos(), "the first statement of the wrapper is not the call of the installed handler: whatever comes before it (a test of the context, of the request) can answer in the handler's place, and the chain behind this position is skipped")
+					return true
+				}
+				if len(call.Args) != len(wps)+1 {
+					r.Viol(key, call.Pos(), "the handler is not called with the wrapper's parameters and the next handler")
+					return true
+				}
+				for i, a := range call.Args {
+					if i < len(wps) {
+						if identObj(info, a) != types.Object(wps[i]) {
+							r.Viol(key, a.Pos(), fmt.Sprintf("argument %d of the handler call is not the wrapper's own parameter %s", i+1, wps[i].Name()))
+							return true
+						}
+					} else if !from(a, bps[1]) {
+						r.Viol(key, a.Pos(), "the last argument of the handler call is not the next handler of the chain")
+						return true
+					}
+				}
+				// the rest: only returns of what the handler returned
+				for _, s := range wrap.Body.List[1:] {
+					ret, ok := s.(*ast.ReturnStmt)
+					good := ok
+					if ok {
+						for i, e := range ret.Results {
+							if i >= len(assigned) || identObj(info, e) != assigned[i] {
+								good = false
+							}
+						}
+					}
+					if !good {
+						r.Viol(key, s.Pos(), "after the handler has returned the wrapper does something else than return its results")
+						return true
+					}
+				}
+				r.Ok(key, wrap.Pos(), "calls the handler first, with its own parameters and the next handler, and returns its results")
+				return true
+			})
+		}
+	}
+}
+
+func ruleG42(r *Run) {
+	p := r.P
+	for _, pkg := range p.Pkgs {
+		info := pkg.TypesInfo
+		for _, file := range pkg.Syntax {
+			for _, d := range file.Decls {
+				fd, ok := d.(*ast.FuncDecl)
+				if !ok || fd.Body == nil {
+					continue
+				}
+				parents := parentMap(fd.Body)
+				n := 0
+				ast.Inspect(fd.Body, func(m ast.Node) bool {
+					as, ok := m.(*ast.AssignStmt)
+					if !ok || len(as.Lhs) != 1 || len(as.Rhs) != 1 {
+						return true
+					}
+					c, ok := ast.Unparen(as.Rhs[0]).(*ast.CallExpr)
+					if !ok || !IsBuiltin(info, c, "append") || len(c.Args) != 2 || !c.Ellipsis.IsValid() {
+						return true
+					}
+					s1, ok1 := ast.Unparen(c.Args[0]).(*ast.SliceExpr)
+					s2, ok2 := ast.Unparen(c.Args[1]).(*ast.SliceExpr)
+					if !ok1 || !ok2 || s1.Low != nil || s1.High == nil || s2.High != nil || s2.Low == nil {
+						return true
+					}
+					iv := identObj(info, s1.High)
+					lo, okb := ast.Unparen(s2.Low).(*ast.BinaryExpr)
+					if iv == nil || !okb || lo.Op != token.ADD || identObj(info, lo.X) != iv {
+						return true
+					}
+					if k, ok := intConst(info, lo.Y); !ok || k != 1 {
+						return true
+					}
+					if types.ExprString(s1.X) != types.ExprString(s2.X) || types.ExprString(s1.X) != types.ExprString(as.Lhs[0]) {
+						return true
+					}
+					// the loop that counts iv upwards
+					var loop *ast.ForStmt
+					for q := parents[as]; q != nil; q = parents[q] {
+						if fs, ok := q.(*ast.ForStmt); ok {
+							if inc, ok := fs.Post.(*ast.IncDecStmt); ok && inc.Tok == token.INC && identObj(info, inc.X) == iv {
+								loop = fs
+								break
+							}
+						}
+						if _, ok := q.(*ast.FuncLit); ok {
+							break
+						}
+					}
+					if loop == nil {
+						return true
+					}
+					n++
+					key := fmt.Sprintf("in-place deletion from %s in %s #%d", types.ExprString(s1.X), p.DeclName(fd), n)
+					loopLabel := ""
+					if ls, ok := parents[loop].(*ast.LabeledStmt); ok {
+						loopLabel = ls.Label.Name
+					}
+					// what happens between the deletion and the next iteration
+					verdict := ""
+					var cur ast.Node = as
+					for verdict == "" {
+						par := parents[cur]
+						var list []ast.Stmt
+						switch b := par.(type) {
+						case *ast.BlockStmt:
+							list = b.List
+						case *ast.CaseClause:
+							list = b.Body
+						case *ast.CommClause:
+							list = b.Body
+						}
+						after := false
+						for _, s := range list {
+							if ast.Node(s) == cur {
+								after = true
+								continue
+							}
+							if !after || verdict != "" {
+								continue
+							}
+							switch x := s.(type) {
+							case *ast.IncDecStmt:
+								if x.Tok == token.DEC && identObj(info, x.X) == iv {
+									verdict = "ok: " + iv.Name() + "-- follows"
+								}
+							case *ast.ReturnStmt:
+								verdict = "ok: return follows"
+							case *ast.BranchStmt:
+								switch {
+								case x.Tok == token.BREAK && x.Label != nil && x.Label.Name == loopLabel:
+									verdict = "ok: the loop is left"
+								case x.Tok == token.BREAK && x.Label == nil:
+									// which statement does it leave?
+									for y := parents[x]; y != nil; y = parents[y] {
+										switch y.(type) {
+										case *ast.ForStmt, *ast.RangeStmt, *ast.SwitchStmt, *ast.SelectStmt, *ast.TypeSwitchStmt:
+											if y == ast.Node(loop) {
+												verdict = "ok: the loop is left"
+											} else {
+												cur = y // execution goes on behind that statement
+												verdict = "jump"
+											}
+										}
+										if verdict != "" {
+											break
+										}
+									}
+								case x.Tok == token.CONTINUE:
+									verdict = "bad: continue"
+								case x.Tok == token.GOTO:
+									verdict = "undecided: goto"
+								}
+							}
+						}
+						if verdict == "jump" {
+							verdict = ""
+							continue
+						}
+						if verdict != "" {
+							break
+						}
+						if par == nil || par == ast.Node(loop.Body) {
+							verdict = "bad: the end of the loop body is reached"
+							break
+						}
+						cur = par
+						if _, ok := cur.(*ast.BlockStmt); ok && parents[cur] != nil {
+							// a bare block or the body of an if/for: go on behind the statement that owns it
+							if _, isList := parents[cur].(*ast.BlockStmt); !isList {
+								cur = parents[cur]
+							}
+						}
+						if cur == ast.Node(loop) {
+							verdict = "bad: the end of the loop body is reached"
+						}
+					}
+					switch {
+					case strings.HasPrefix(verdict, "ok"):
+						r.Ok(key, as.Pos(), verdict[4:])
+					case strings.HasPrefix(verdict, "undecided"):
+						r.Undec(key, as.Pos(), verdict)
+					default:
+						r.Viol(key, as.Pos(), "the element at "+iv.Name()+" is cut out and the loop goes on with "+iv.Name()+"+1 ("+verdict[5:]+"): the element that has moved into position "+iv.Name()+" is skipped")
+					}
+					return true
+				})
+			}
+		}
+	}
+}
+
+// ---------------------------------------------------------------------------------------------------
+// G40 a plugin does not re-enter the chain of the call's own client
+
+func init() {
+	register("G40", "in rpc/plugins the client of the call in progress (ClientContext.Client()) is used for its data (URLs, settings) only: no plugin calls one of its methods that run a plugin chain or are the bottom of one (the methods of core.Client that fetch PluginManager.Handler(), transitively, and the method values handed to NewIOManager / NewInvokeManager - InvokeContext, Invoke, Call, Request, Transport). A plugin is already INSIDE that client's chain; going on is `next`. Re-entering from the top runs every handler installed in front of the plugin again, nested, for one call (a retry through Client().Request), entering at the bottom skips the handlers behind it", 5, ruleG40)
+}
+
+func ruleG40(r *Run) {
+	p := r.P
+	core := p.Pkg("rpc/core")
+	if core == nil {
+		r.Undec("package rpc/core", 0, "not found")
+		return
+	}
+	cinfo := core.TypesInfo
+	clientObj, _ := p.LookupObj("rpc/core", "Client").(*types.TypeName)
+	if clientObj == nil {
+		r.Undec("rpc/core.Client", 0, "not found")
+		return
+	}
+	// entry methods of Client
+	entry := map[*types.Func]bool{}
+	mdecl := map[*types.Func]*ast.FuncDecl{}
+	for _, file := range core.Syntax {
+		for _, d := range file.Decls {
+			fd, ok := d.(*ast.FuncDecl)
+			if !ok || fd.Body == nil || fd.Recv == nil {
+				continue
+			}
+			f, _ := cinfo.Defs[fd.Name].(*types.Func)
+			if f == nil {
+				continue
+			}
+			rt := f.Type().(*types.Signature).Recv().Type()
+			if pt, ok := rt.(*types.Pointer); ok {
+				rt = pt.Elem()
+			}
+			if nt, ok := rt.(*types.Named); ok && nt.Obj() == clientObj {
+				mdecl[f] = fd
+			}
+		}
+	}
+	for f, fd := range mdecl {
+		ast.Inspect(fd.Body, func(m ast.Node) bool {
+			if c, ok := m.(*ast.CallExpr); ok && methodName(c) == "Handler" {
+				if sel, ok := c.Fun.(*ast.SelectorExpr); ok {
+					if s := cinfo.Selections[sel]; s != nil {
+						if _, isIface := s.Recv().Underlying().(*types.Interface); isIface {
+							entry[f] = true
+						}
+					}
+				}
+			}
+			return true
+		})
+	}
+	// bottoms: method values of Client handed to a manager constructor
+	for _, file := range core.Syntax {
+		ast.Inspect(file, func(m ast.Node) bool {
+			c, ok := m.(*ast.CallExpr)
+			if !ok {
+				return true
+			}
+			if f := Callee(cinfo, c); f == nil || (refName(f.Name()) != "NewIOManager" && refName(f.Name()) != "NewInvokeManager") {
+				return true
+			}
+			for _, a := range c.Args {
+				if sel, ok := ast.Unparen(a).(*ast.SelectorExpr); ok {
+					if s := cinfo.Selections[sel]; s != nil && s.Kind() == types.MethodVal {
+						if f, ok := s.Obj().(*types.Func); ok && mdecl[f] != nil {
+							entry[f] = true
+						}
+					}
+				}
+			}
+			return true
+		})
+	}
+	for changed := true; changed; {
+		changed = false
+		for f, fd := range mdecl {
+			if entry[f] {
+				continue
+			}
+			ast.Inspect(fd.Body, func(m ast.Node) bool {
+				if c, ok := m.(*ast.CallExpr); ok {
+					if g := Callee(cinfo, c); g != nil && entry[g] && !entry[f] {
+						entry[f] = true
+						changed = true
+					}
+				}
+				return true
+			})
+		}
+	}
+	if len(entry) < 3 {
+		r.Undec("entry methods of rpc/core.Client", clientObj.Pos(), fmt.Sprintf("only %d found", len(entry)))
+		return
+	}
+	var names []string
+	for f := range entry {
+		names = append(names, f.Name())
+	}
+	sort.Strings(names)
+	for _, pkg := range p.Pkgs {
+		if !strings.Contains(pkg.PkgPath, "/rpc/plugins/") {
+			continue
+		}
+		info := pkg.TypesInfo
+		for _, file := range pkg.Syntax {
+			for _, d := range file.Decls {
+				fd, ok := d.(*ast.FuncDecl)
+				if !ok || fd.Body == nil {
+					continue
+				}
+				parents := parentMap(fd.Body)
+				n := 0
+				ast.Inspect(fd.Body, func(m ast.Node) bool {
+					c, ok := m.(*ast.CallExpr)
+					if !ok || methodName(c) != "Client" || len(c.Args) != 0 {
+						return true
+					}
+					tv, ok := info.Types[c]
+					if !ok {
+						return true
+					}
+					pt, ok := tv.Type.(*types.Pointer)
+					if !ok {
+						return true
+					}
+					if nt, ok := pt.Elem().(*types.Named); !ok || nt.Obj() != clientObj {
+						return true
+					}
+					n++
+					key := fmt.Sprintf("use of the call's client in %s #%d", p.DeclName(fd), n)
+					bad := ""
+					checkUse := func(e ast.Expr) {
+						if sel, ok := parents[e].(*ast.SelectorExpr); ok && sel.X == e {
+							if s := info.Selections[sel]; s != nil && s.Kind() == types.MethodVal {
+								if f, ok := s.Obj().(*types.Func); ok && entry[f] {
+									bad = f.Name()
+								}
+							}
+						}
+					}
+					checkUse(c)
+					// a local that stands for it
+					if as, ok := parents[c].(*ast.AssignStmt); ok {
+						for i, rh := range as.Rhs {
+							if rh == ast.Expr(c) && i < len(as.Lhs) {
+								if loc := identObj(info, as.Lhs[i]); loc != nil {
+									ast.Inspect(fd.Body, func(u ast.Node) bool {
+										if id, ok := u.(*ast.Ident); ok && info.Uses[id] == loc {
+											checkUse(id)
+										}
+										return true
+									})
+								}
+							}
+						}
+					}
+					r.Check(bad == "", key, c.Pos(), "used for its data only (entry methods: "+strings.Join(names, ", ")+")", "the plugin calls "+bad+" on the client of the call it is handling: that enters the client's plugin chain again (from the top, or at its bottom) from inside the chain - handlers in front of this plugin run a second time, nested, or the handlers behind it are skipped; the way on is `next`")
+					return true
+				})
+			}
+		}
+	}
+}
+
+// ---------------------------------------------------------------------------------------------------
+// G43 the bottom of the invoke chain hands the error of the IO chain on unchanged
+
+func init() {
+	register("G43", "the bottom of the client's invoke chain (the method value handed to NewInvokeManager: Client.Call) returns the error that the IO chain gave it (the result of Client.Request) as it is: on the path where that error is not nil, the error variable is not assigned again and no other value is returned in its place. Plugins that sit in BOTH chains recognise their own refusals by identity (the circuit breaker's invoke handler serves the mock service when err == ErrBreaker; the limiters' ErrTimeout): an error replaced on the way up - by ctx.Err(), by a wrapped copy - is not recognised, and an open breaker neither rejects with its own error nor falls back", 1, ruleG43)
+}
+
+func ruleG43(r *Run) {
+	p := r.P
+	core := p.Pkg("rpc/core")
+	if core == nil {
+		r.Undec("package rpc/core", 0, "not found")
+		return
+	}
+	info := core.TypesInfo
+	// the bottoms of invoke chains
+	var bottoms []*types.Func
+	for _, file := range core.Syntax {
+		ast.Inspect(file, func(m ast.Node) bool {
+			c, ok := m.(*ast.CallExpr)
+			if !ok {
+				return true
+			}
+			if f := Callee(info, c); f == nil || refName(f.Name()) != "NewInvokeManager" {
+				return true
+			}
+			for _, a := range c.Args {
+				if sel, ok := ast.Unparen(a).(*ast.SelectorExpr); ok {
+					if s := info.Selections[sel]; s != nil && s.Kind() == types.MethodVal {
+						if f, ok := s.Obj().(*types.Func); ok {
+							bottoms = append(bottoms, f)
+						}
+					}
+				}
+			}
+			return true
+		})
+	}
+	n := 0
+	for _, bf := range bottoms {
+		fd := p.Decl(bf)
+		if fd == nil || fd.Body == nil {
+			continue
+		}
+		// the call into the IO chain: a call of a method of the same receiver type that takes and returns []byte
+		var reqStmt *ast.AssignStmt
+		var errV types.Object
+		ast.Inspect(fd.Body, func(m ast.Node) bool {
+			as, ok := m.(*ast.AssignStmt)
+			if !ok || len(as.Rhs) != 1 || len(as.Lhs) != 2 || reqStmt != nil {
+				return true
+			}
+			c, ok := ast.Unparen(as.Rhs[0]).(*ast.CallExpr)
+			if !ok {
+				return true
+			}
+			g := Callee(info, c)
+			if g == nil || g.Pkg() != bf.Pkg() {
+				return true
+			}
+			sig := g.Type().(*types.Signature)
+			if sig.Recv() == nil || sig.Results().Len() != 2 || sig.Results().At(0).Type().String() != "[]byte" || !isErrorType(sig.Results().At(1).Type()) {
+				return true
+			}
+			takesBytes := false
+			for i := 0; i < sig.Params().Len(); i++ {
+				if sig.Params().At(i).Type().String() == "[]byte" {
+					takesBytes = true
+				}
+			}
+			if !takesBytes {
+				return true
+			}
+			reqStmt = as
+			errV = identObj(info, as.Lhs[1])
+			return true
+		})
+		if reqStmt == nil || errV == nil {
+			continue // a bottom that does not go through an IO chain (the service side executes the method)
+		}
+		n++
+		key := "error of the IO chain in " + p.DeclName(fd)
+		parents := parentMap(fd.Body)
+		failing := func(at ast.Node) bool {
+			for _, f := range factsWithSwitch(parents, at) {
+				b, ok := ast.Unparen(f.e).(*ast.BinaryExpr)
+				if !ok || (b.Op != token.EQL && b.Op != token.NEQ) {
+					continue
+				}
+				var other ast.Expr
+				if identObj(info, b.X) == errV {
+					other = b.Y
+				} else if identObj(info, b.Y) == errV {
+					other = b.X
+				}
+				if id, ok := ast.Unparen(exprOrNilE(other)).(*ast.Ident); !ok || id.Name != "nil" {
+					continue
+				}
+				// err != nil holds: (NEQ, !neg) or (EQL, neg)
+				if (b.Op == token.NEQ && !f.neg) || (b.Op == token.EQL && f.neg) {
+					return true
+				}
+			}
+			return false
+		}
+		bad := ""
+		var badPos token.Pos
+		ast.Inspect(fd.Body, func(m ast.Node) bool {
+			if bad != "" || m == nil || m.Pos() <= reqStmt.Pos() {
+				return true
+			}
+			switch x := m.(type) {
+			case *ast.AssignStmt:
+				for _, l := range x.Lhs {
+					if identObj(info, l) == errV && failing(x) {
+						bad = "an assignment at " + p.Rel(x.Pos()) + " gives the error variable another value where the IO chain has failed"
+						badPos = x.Pos()
+					}
+				}
+			case *ast.ReturnStmt:
+				if len(x.Results) > 0 && failing(x) {
+					last := x.Results[len(x.Results)-1]
+					if identObj(info, last) != errV {
+						bad = "the return at " + p.Rel(x.Pos()) + " hands back something else than the error of the IO chain"
+						badPos = x.Pos()
+					}
+				}
+			}
+			return true
+		})
+		if bad != "" {
+			r.Viol(key, badPos, bad+": a refusal that a plugin raised in the IO chain (ErrBreaker, ErrTimeout) no longer reaches the same plugin's invoke handler as the value it compares with")
+		} else {
+			r.Ok(key, reqStmt.Pos(), "returned as it is")
+		}
+	}
+	if n == 0 {
+		r.Undec("bottom of the client's invoke chain", 0, "no method value handed to NewInvokeManager calls into an IO chain")
+	}
+}
+
+func exprOrNilE(e ast.Expr) ast.Expr {
+	if e == nil {
+		return &ast.BadExpr{}
+	}
+	return e
+}
